@@ -553,6 +553,14 @@ func registerStrings(in *Interp) {
 		return reOf(th, a[0]).MatchString(s.(string))
 	})
 	in.reg("(*regexp.Regexp).FindStringSubmatch", func(th *Thread, fn *ssa.Function, a []Value) Value {
+		if r, ok := a[1].(*Rope); ok {
+			conc, bs := th.ropeConcretizeForRegexp(reOf(th, a[0]), r)
+			idx := reOf(th, a[0]).FindSubmatchIndex(conc)
+			if idx == nil {
+				return []Value(nil)
+			}
+			return subRopes(bs, idx)
+		}
 		m := reOf(th, a[0]).FindStringSubmatch(th.str(a[1], "FindStringSubmatch"))
 		if m == nil {
 			return []Value(nil)
@@ -560,6 +568,18 @@ func registerStrings(in *Interp) {
 		return strSlice(m)
 	})
 	in.reg("(*regexp.Regexp).FindAllStringSubmatch", func(th *Thread, fn *ssa.Function, a []Value) Value {
+		if r, ok := a[1].(*Rope); ok {
+			conc, bs := th.ropeConcretizeForRegexp(reOf(th, a[0]), r)
+			all := reOf(th, a[0]).FindAllSubmatchIndex(conc, int(th.concInt(a[2], "n")))
+			if all == nil {
+				return []Value(nil)
+			}
+			out := make([]Value, len(all))
+			for i, idx := range all {
+				out[i] = subRopes(bs, idx)
+			}
+			return out
+		}
 		ms := reOf(th, a[0]).FindAllStringSubmatch(th.str(a[1], "FindAllStringSubmatch"), int(th.concInt(a[2], "n")))
 		if ms == nil {
 			return []Value(nil)
@@ -723,6 +743,44 @@ func (th *Thread) ropeReplaceAll(r *Rope, old, nw string) Value {
 				out = concatStr(out, &Rope{Segs: []Seg{{B: b}}})
 			}
 		}
+	}
+	return out
+}
+
+// ropeConcretizeForRegexp picks, for every symbolic byte, its regexp byte class (a
+// decision constrained in the path condition) and returns a representative string.
+func (th *Thread) ropeConcretizeForRegexp(re *regexp.Regexp, r *Rope) ([]byte, []Value) {
+	bs, ok := r.bytes()
+	if !ok {
+		panic(unsupported("regexp on rope with dec"))
+	}
+	classes := byteClasses(re)
+	conc := make([]byte, len(bs))
+	for i, b := range bs {
+		switch b := b.(type) {
+		case int64:
+			conc[i] = byte(b)
+		case *sym.Term:
+			cons := make([]*sym.Term, len(classes))
+			for ci, cl := range classes {
+				cons[ci] = classTerm(b, cl)
+			}
+			c := th.ex.decide("reclass", len(classes), cons, "")
+			conc[i] = classes[c].rep
+		}
+	}
+	return conc, bs
+}
+
+func subRopes(bs []Value, idx []int) Value {
+	out := make([]Value, len(idx)/2)
+	for i := range out {
+		lo, hi := idx[2*i], idx[2*i+1]
+		if lo < 0 {
+			out[i] = ""
+			continue
+		}
+		out[i] = ropeFromBytes(bs[lo:hi])
 	}
 	return out
 }
